@@ -721,9 +721,18 @@ func genChooser(r *core.Rng, ntasks int) (string, func(runnable []int, cur int, 
 
 const regSweepSlices = 17
 
+// regSweepSlicesFor: the thorough tier adds all 16^5 = 1 048 576 sets of exactly
+// five intervals over coordinates 0..3, in 256 slices (first two intervals fixed).
+func regSweepSlicesFor(tier string) int {
+	if tier == "thorough" {
+		return regSweepSlices + 256
+	}
+	return regSweepSlices
+}
+
 // RunC16 is one simulated run.
 func RunC16(ctx *core.Ctx, r *core.Rng) {
-	if ctx.Run() < regSweepSlices {
+	if ctx.Run() < regSweepSlicesFor(ctx.Tier) {
 		runC16Sweep(ctx, ctx.Run())
 		return
 	}
@@ -798,7 +807,7 @@ func RunC16(ctx *core.Ctx, r *core.Rng) {
 			ctx.EvS(v.Key)
 			report(ctx, c, v)
 		}
-		if ctx.Run() < regSweepSlices+24 {
+		if ctx.Run() < regSweepSlicesFor(ctx.Tier)+24 {
 			ctx.Sample(map[string]any{"case": rc.String()})
 		}
 	}
@@ -837,6 +846,20 @@ func runC16Sweep(ctx *core.Ctx, slice int) {
 			ctx.EvS(v.Key)
 			report(ctx, c, v)
 		}
+	}
+	if slice >= regSweepSlices {
+		s := slice - regSweepSlices
+		for a := 0; a < 16; a++ {
+			for b := 0; b < 16; b++ {
+				for d := 0; d < 16; d++ {
+					try([]int{s / 16, s % 16, a, b, d})
+				}
+			}
+		}
+		ctx.EvU(uint64(slice), uint64(count))
+		ctx.Stats.Add("exhaustive/sweep_interval_sets_of_5_over_0..3", int64(count))
+		ctx.Seen(core.HashString(fmt.Sprint("sweep5", slice)))
+		return
 	}
 	if slice < 16 {
 		for a := 0; a < 16; a++ {
